@@ -189,7 +189,7 @@ def gen_session(rng, tier, profile="mixed"):
     pw = rng.choice(["secret", "secret", "secret", "", None])
     if ctype == "k" and (pw is None or rng.random() < 0.9):
         pw = "secret"
-    cert = 1 if rng.random() < (0.3 if policy else 0.1) else 0
+    cert = rng.choice([1, 1, 2, 3]) if rng.random() < (0.3 if policy else 0.1) else 0
     ops.append("new %s %s %d %s %d" % (h(jid), "-" if pw is None else h(pw), flags, ctype, cert))
     ctype0 = ctype
     if rng.random() < 0.15:
@@ -205,8 +205,9 @@ def gen_session(rng, tier, profile="mixed"):
     for cyc in range(cycles):
         ops.append("wr all")
         if rng.random() < 0.05:
+            # a connect call that fails synchronously (any entry point), then life goes on
             ops.append("tcpfail 1")
-            ops.append("connect")
+            ops.append(rng.choice(["connect", "connect", "connect r", "connect c", "connect k"]))
             ops.append("tcpfail 0")
             continue
         if rng.random() < 0.06:
@@ -564,6 +565,15 @@ def traffic(s, rng, sm_on):
                              "<presence id='i%d'/>", "<iq id='i%d' type='get'><ping xmlns='urn:xmpp:ping'/></iq>",
                              "<foo xmlns='urn:x' id='i%d'/>", "<iq type='result' id='uid1'><q n='%d'/></iq>"])
                  % rng.randrange(1000))
+        elif k < 0.33:
+            s.rx(rng.choice(["<success xmlns='%s'/>" % NS_SASL, "<failure xmlns='%s'><not-authorized/></failure>" % NS_SASL,
+                             "<challenge xmlns='%s'>cnNwYXV0aD1hYmM=</challenge>" % NS_SASL,
+                             "<proceed xmlns='%s'/>" % NS_TLS]))
+        elif k < 0.36:
+            # more than one read buffer (4096 bytes) in one piece
+            n = rng.choice([4000, 4095, 4096, 4097, 5000, 8192, 9000])
+            ops.append("rx " + hx(("<message id='big'><body>%s</body></message>" % ("x" * n)).encode()))
+            ops.append("run")
         elif k < 0.42:
             s.rx("<r xmlns='%s'/>" % NS_SM)
         elif k < 0.54:
